@@ -164,9 +164,9 @@ Proof.
   exists t. split; auto. eapply client_ty_subst; eauto.
 Qed.
 
-Lemma binder_eqb x old : binder x -> chan old = None ->
+Lemma binder_eqb x old : pbinder x -> chan old = None ->
   name_equal x old = String.eqb (ident x) (ident old).
-Proof. intros [Hx _] Ho. apply name_equal_binder; auto. Qed.
+Proof. intros Hx Ho. apply name_equal_binder; auto. Qed.
 
 (* finite-map identities for the binders that rebind the provider *)
 Lemma ins_del_ins (Γ : gmap string sty) p c a b : <[p := a]> (delete c (<[p := b]> Γ)) = <[p := a]> (delete c Γ).
@@ -368,7 +368,7 @@ Proof.
   - (* SendC *) intros; simpl. eapply T_SendC; eauto.
   - (* RecvP *) intros Γ sh rs s pay cont from k A0 B m Hp Hw Hbp Hbc Hne Hk IH Hfr; simpl.
     rewrite (binder_eqb pay old), (binder_eqb cont old) by auto. rewrite Hy.
-    destruct Hbp as [Hbp1 Hbp2]. destruct Hbc as [Hbc1 Hbc2].
+    destruct Hbp as [Hbp1 Hbp2].
     eapply T_RecvP; eauto; try (split; auto).
     destruct (String.eqb (ident pay) y) eqn:E1; simpl.
     { eapply typed_rs; [|exact Hk]. set_solver. }
@@ -418,8 +418,8 @@ Proof.
   - (* CastP *) intros; simpl. eapply T_CastP; eauto.
   - (* CastC *) intros; simpl. eapply T_CastC; eauto.
   - (* ShiftP *) intros Γ sh rs s x from k fm tm A0 Hp Hw Hb Hk IH Hfr; simpl.
-    rewrite (binder_eqb x old) by auto. rewrite Hy. destruct Hb as [Hb1 Hb2].
-    eapply T_ShiftP; eauto; try (split; auto).
+    rewrite (binder_eqb x old) by auto. rewrite Hy.
+    eapply T_ShiftP; eauto.
     destruct (String.eqb (ident x) y) eqn:E1; simpl.
     { eapply typed_rs; [|exact Hk]. set_solver. }
     apply String.eqb_neq in E1.
@@ -449,8 +449,8 @@ Proof.
   - (* Print *) intros; simpl. eapply T_Print; eauto.
   - (* brs_p nil *) intros; simpl. constructor.
   - (* brs_p cons *) intros Γ rs bs l pay k r A0 Hf Hb Hk IHk Hr IHr Hfr; simpl.
-    rewrite (binder_eqb pay old) by auto. rewrite Hy. destruct Hb as [Hb1 Hb2].
-    eapply TBP_cons; eauto; try (split; auto).
+    rewrite (binder_eqb pay old) by auto. rewrite Hy.
+    eapply TBP_cons; eauto.
     destruct (String.eqb (ident pay) y) eqn:E1; simpl.
     { eapply typed_rs; [|exact Hk]. set_solver. }
     apply String.eqb_neq in E1.
@@ -519,6 +519,7 @@ Proof.
   apply typed_mutind; intros; simpl;
     repeat match goal with
            | H : binder ?b |- context [name_equal ?b old] => rewrite (binder_eqb b old) by auto
+           | H : pbinder ?b |- context [name_equal ?b old] => rewrite (binder_eqb b old) by auto
            end; rewrite ?Hx;
     repeat match goal with
            | H : prov_name ?sh ?rs ?n |- context [name_subst old new ?n] => rewrite (Hpr sh rs n) by assumption
@@ -644,11 +645,12 @@ Proof.
     by (intros; eapply client_ty_subst_chan; eauto).
   assert (Hpr : forall sh rs n, prov_name sh rs n -> prov_name sh rs (name_subst old new n))
     by (intros sh rs n Hp; rewrite (prov_name_subst_chan sh rs old new d n) by auto; exact Hp).
-  assert (Hbe : forall x, binder x -> name_equal x old = false)
-    by (intros x [Hx _]; eapply name_equal_binder_chan; eauto).
+  assert (Hbe : forall x, pbinder x -> name_equal x old = false)
+    by (intros x Hx; eapply name_equal_binder_chan; eauto).
   apply typed_mutind; intros; simpl;
     repeat match goal with
-           | H : binder ?b |- context [name_equal ?b old] => rewrite (Hbe b H)
+           | H : binder ?b |- context [name_equal ?b old] => rewrite (Hbe b (binder_pbinder b H))
+           | H : pbinder ?b |- context [name_equal ?b old] => rewrite (Hbe b H)
            end; simpl;
     try (econstructor; eauto using covers_subst; fail).
   (* Call *)
